@@ -683,23 +683,37 @@ def extra_checks(tier, seed, stats, broken):
     thresholds = {}
     s = sandbox.Sandbox(_worker, wall_s=WALL_S, cpu_s=CPU_S, as_mb=AS_MB, init=_init)
     try:
+        def probe(shape, depth):
+            """'ok' / 'recursion' / 'other' (a time limit or a kill on a loaded machine says nothing about the recursion depth:
+            a false alarm of this probe was seen in a run that took six times its usual time)"""
+            r = to_impl(s.run(("deep", "parse", {"shape": shape, "where": "generic-property", "depth": depth})))
+            if r[0] == "OK":
+                return "ok"
+            return "recursion" if (r[0] == "EXC" and r[1] == "ERecursion") else "other"
         for shape in ("dict", "list"):
             lo, hi = SAFE_DEPTH, 3000
-            if to_impl(s.run(("deep", "parse", {"shape": shape, "where": "generic-property", "depth": hi})))[0] == "OK":
+            top = probe(shape, hi)
+            if top == "ok":
                 thresholds[shape] = None
                 continue
-            while hi - lo > 1:
+            undetermined = top == "other"
+            while hi - lo > 1 and not undetermined:
                 mid = (lo + hi) // 2
-                if to_impl(s.run(("deep", "parse", {"shape": shape, "where": "generic-property", "depth": mid})))[0] == "OK":
+                got = probe(shape, mid)
+                if got == "other":
+                    got = probe(shape, mid)        # once more: a transient outcome does not repeat
+                if got == "ok":
                     lo = mid
-                else:
+                elif got == "recursion":
                     hi = mid
-            thresholds[shape] = hi
+                else:
+                    undetermined = True
+            thresholds[shape] = "undetermined (a resource limit, not a RecursionError, ended a probe)" if undetermined else hi
     finally:
         s.close()
     stats.dist["first_depth_raising_RecursionError"] = thresholds
     for shape, th in thresholds.items():
-        if th is not None and th <= 4 * SAFE_DEPTH:
+        if isinstance(th, int) and th <= 4 * SAFE_DEPTH:
             out.append({"sig": "depth-margin", "surface": DEEP.name, "theorem": "SAFE_DEPTH margin", "tags": ["deep-nesting-margin"], "crash": True,
                         "input": f"RecursionError already at depth {th} ({shape}); the main stream nests up to {SAFE_DEPTH}", "impl": None, "model": None})
     return out
